@@ -33,6 +33,7 @@ type genSet struct {
 	written  map[string]bool    // gen file existed right after the cff run
 	perFile  map[string]*cffRun // per-file re-runs after a crash of the tool on the package
 	per      int                // programs per package (default perPkg)
+	race     bool               // build the driver with the race detector
 }
 
 type cffRun struct {
@@ -218,6 +219,12 @@ func (g *genSet) buildDriver(overlay, out string) error {
 	}
 	for attempt := 0; attempt < 40; attempt++ {
 		args := []string{"build"}
+		if g.race {
+			// the detector watches the repository's code and the generated
+			// code only: the shim and the harness are compiled without
+			// instrumentation (their ordering is the cooperative scheduler's)
+			args = append(args, "-race", "-gcflags=go.uber.org/cff/zzverif/vs=-race=false", "-gcflags=verif/harness/...=-race=false")
+		}
 		if overlay != "" {
 			args = append(args, "-overlay", overlay)
 		}
